@@ -53,7 +53,7 @@ func init() {
 		}
 		nr := 2000
 		if d.Thorough() {
-			nr = 100000
+			nr = 600000
 		}
 		for i := 0; i < nr/d.NShards; i++ {
 			fmtID(rnd())
